@@ -39,6 +39,12 @@ class MethodHolder:
     def __init__(self, tag):
         self.tag = tag
 
+    def transform(self, x=1):
+        return (self.tag, x)
+
+    def other(self, x=1):
+        return ("other", self.tag, x)
+
 
 class UDict(dict):
     """a user subclass of dict (pickled through __reduce_ex__: class, state and an iterator over the items)"""
